@@ -1343,7 +1343,7 @@ void mcount_exit_filter_record(struct mcount_thread_data *mtdp, struct mcount_re
 		if (mcount_watchpoints)
 			save_watchpoint(mtdp, rstack, mcount_watchpoints);
 
-		if (((rstack->end_time - rstack->start_time > time_filter) &&
+		if (((rstack->end_time - rstack->start_time >= time_filter) &&
 		     (!mcount_triggers->caller_count || rstack->flags & MCOUNT_FL_CALLER)) ||
 		    rstack->flags & (MCOUNT_FL_WRITTEN | MCOUNT_FL_TRACE)) {
 			if (record_trace_data(mtdp, rstack, retval) < 0)
@@ -1405,7 +1405,7 @@ void mcount_exit_filter_record(struct mcount_thread_data *mtdp, struct mcount_re
 {
 	mtdp->record_idx--;
 
-	if (rstack->end_time - rstack->start_time > mcount_threshold ||
+	if (rstack->end_time - rstack->start_time >= mcount_threshold ||
 	    rstack->flags & MCOUNT_FL_WRITTEN) {
 		if (record_trace_data(mtdp, rstack, NULL) < 0)
 			pr_err("error during record");
